@@ -44,7 +44,7 @@ CHECKS = {
    text="Exports for exporter-context classes x lengths {0,1,16,Nh-1,Nh,Nh+1,255Nh-1,255Nh,255Nh+1,65535,65536,70000} x 3 KDFs, from every reachable state of the bounded model (before/after seals, opens, refusals, at the latch); export-only suites export the same way and their seal/open panic; thorough sweeps every L in 0..65599.",
    ref="5 (C11)"),
  "C12": dict(cat=MC, tech="size / round-trip / write_exact decision tables in TLA+ (HpkeCodec.tla) enumerated by TLC; every case replayed in exact mode",
-   text="4 KEMs x {public, private, encapsulated key} + 4 tag types: size(), from_bytes(to_bytes(v)) = v, write_exact into every buffer length 0..2*size+2 (panic iff length differs), from_bytes of every input length 0..2*size+2 with IncorrectInputLength(expected, given), canonical re-serialisation of accepted encodings.",
+   text="4 KEMs x {public, private, encapsulated key} + 4 tag types: size(), from_bytes(to_bytes(v)) = v, write_exact into every buffer length 0..2*size+2 (panic iff length differs), from_bytes of every input length 0..2*size+2 with IncorrectInputLength(expected, given) (both sweeps also at size + 256, 512, 768, 65536, 131072), canonical re-serialisation of accepted encodings.",
    ref="5 (C12)"),
  "C13": dict(cat=MC, tech="the specification's result alphabet contains no panic for byte-consuming entry points (asserted by TLC); TLC enumerates entry point x length class, each replayed on an executor built with overflow checks",
    text="Key/encapsulated-key/tag deserialisation, KDF helpers, DeriveKeyPair, setup (info/psk/psk_id of 0..70000 bytes), seal/open in both forms with arbitrary input of every length class, export with long contexts and lengths beyond 2^16: result must be the specification's value or error, never a panic; setup errors only EncapError/DecapError.",
